@@ -8,6 +8,11 @@
         N (NSGA3Indicator, C14Nsga3.v) over OCaml floats, after '|' the answer of the plane solver (w.. or none)
    U <alg> <ind> <d> <mu> <lambda> <useRef> ref.. values..   updatePopulation (C14Loop.gen_update / ss_update) with the coded
         indicator models; format as in harness/c14_loop.cpp
+   N <alg> <nobj> <mu> <n> p1..pn v1..vn r1..rn | o1 o2 ..   initialisation (C14Init.v) from the n starting points p_i (opaque tokens:
+        the coordinates as the harness printed them), v_i the objective vector at p_i (opaque token, evaluated by the harness itself),
+        r_i = 1 iff the individual at p_i got rank 1 (only read by the SteadyStateMOCMA model: sortRankOneToFront); after '|' the
+        random indices recovered from the implementation's output.  mu is the configured value (approxMu for RVEA: the model
+        computes the population size).  Output: pop=<point:penalized:unpenalized;..> sol=<point:value;..> ok=<oracle_ok> mu=<size>
    X / M / T / L   variation and mating-selection operators (C14Var.v), formats as in harness/c14_var.cpp; draws after '|' *)
 open C14_model
 
@@ -113,6 +118,29 @@ let () =
            let corners = n3_corners 0.0 1.0 max_float 0.00001 ( +. ) ( -. ) ( *. ) lt (n3_translate ( -. ) lt (a @ f)) in
            Printf.printf "lcs=%s corners=%s\n" (join snat l) (join snat corners)
          | _ -> print_endline "NOMODEL")
+      | "N" :: alg :: nobj :: mu :: n :: rest ->
+        let nobj = int_of_string nobj and mu = int_of_string mu and n = int_of_string n in
+        let pts = take n rest and vals = take n (drop n rest) and flags = take n (drop (2 * n) rest) in
+        assert (List.length flags = n);
+        let table = List.combine pts vals and ftable = List.combine pts flags in
+        let f x = try List.assoc x table with Not_found -> "?" in            (* function.eval on the starting points *)
+        let is1 m = (try List.assoc m.ipt ftable with Not_found -> "0") = "1" in
+        let oracle = List.map (fun x -> nat_of_int (int_of_string x)) (toks right) in
+        let mun = nat_of_int mu in
+        let pop, size = match alg with
+          | "MOCMA" -> mocma_init f pts mun oracle, mu
+          | "SSMOCMA" -> ssmocma_init f is1 pts mun oracle, mu
+          | "SMSEMOA" -> smsemoa_init f pts mun oracle, mu
+          | "NSGA2" | "NSGA2C" | "NSGA2E" -> nsga2_init f pts mun oracle, mu
+          | "NSGA3" -> nsga3_init f pts mun oracle, mu
+          | "MOEAD" -> moead_init f pts mun oracle, mu
+          | "RVEA" -> rvea_init f (nat_of_int nobj) pts mun oracle, int_of_nat (rvea_mu (nat_of_int nobj) mun)
+          | _ -> failwith "unknown algorithm" in
+        let ok = oracle_ok (nat_of_int n) (nat_of_int size) oracle in
+        Printf.printf "pop=%s sol=%s ok=%d mu=%d\n"
+          (String.concat ";" (List.map (fun m -> m.ipt ^ ":" ^ m.ipen ^ ":" ^ m.iunp) pop))
+          (String.concat ";" (List.map (fun (x, v) -> x ^ ":" ^ v) (init_solution pop)))
+          (if ok then 1 else 0) size
       | "X" :: n :: prob :: nc :: rest ->
         let n = int_of_string n and prob = float_of_string prob and nc = float_of_string nc in
         let v = List.map float_of_string rest in
